@@ -638,3 +638,30 @@ func (m *mon) staleBad() bool {
 	m.mu.Unlock()
 	return a == b
 }
+
+// ---- 41/42. one invariant text for both ways to write a counting loop over a slice
+func fillCounting(a []int) {
+	for i := 0; i < len(a); i++ {
+		a[i] = 1
+	}
+}
+
+func fillRange(a []int) {
+	for i := range a {
+		a[i] = 1
+	}
+}
+
+func fillRangeBad(a []int) {
+	for i := range a {
+		if i > 0 {
+			a[i] = 1
+		}
+	}
+}
+
+func fillCountingBad(a []int) {
+	for i := 1; i < len(a); i++ {
+		a[i] = 1
+	}
+}
